@@ -33,6 +33,7 @@ def run(repo: Repo, tier: str, res: CheckResult, seed: int = 0) -> None:
     n = genprog.c08_checks(repo, tier, res, seed)
     res.count("CTOR.programs", n, 300)
     ctor_sibling(repo, res)
+    introspected_defaults_kept(repo, res)
     res.assumptions = list(ASSUMPTIONS)
 
 
@@ -135,3 +136,32 @@ def ctor_sibling(repo: Repo, res: CheckResult) -> None:
                         "BuiltinModelLoaderGen._gen_constructor_call", f"{t1} vs {t2}",
                         "loader generator and model coercer assemble constructor calls by different decision tables over "
                         "(parameter kind, skipped parameters)", lg.lineno))
+
+
+def introspected_defaults_kept(repo: Repo, res: CheckResult) -> None:
+    """Introspectors report the model's OWN default: DefaultValue(<the object of the definition>) or DefaultFactory(<the model's own
+    factory>). A factory invented by the introspector (partial(copy.copy, default), a lambda, deepcopy) gives every loaded object
+    another object than the model's constructor would -- sentinels (`timeout is _UNSET`) and shared instances lose their
+    identity."""
+    n = 0
+    for m in repo.modules.values():
+        if "/model_tools/introspection/" not in m.rel:
+            continue
+        for c in ast.walk(m.tree):
+            if not (isinstance(c, ast.Call) and norm(c.func).split(".")[-1] == "DefaultFactory"):
+                continue
+            arg = c.args[0] if c.args else next((k.value for k in c.keywords if k.arg == "factory"), None)
+            if arg is None:
+                continue
+            n += 1
+            res.evaluated(f"introspected-default:{m.rel}:{c.lineno}", True)
+            invented = isinstance(arg, (ast.Lambda, ast.Call)) or any(
+                isinstance(x, (ast.Name, ast.Attribute)) and norm(x).split(".")[-1] in ("copy", "deepcopy", "partial") for x in ast.walk(arg))
+            if invented:
+                fn = m.enclosing_function(c)
+                res.add(Finding("C08", "DEFAULT.factory-invented-by-introspector", m.rel, m.qualname(fn) if fn is not None else "<module>",
+                                norm(c)[:100],
+                                f"`{norm(c)[:80]}` wraps the model's default into a factory of the introspector's own making: an omitted field "
+                                "no longer receives the object the definition holds (what the model's own constructor would use) but a copy "
+                                "-- identity-significant defaults (sentinels, shared registries) change meaning", c.lineno))
+    res.count("DEFAULT.introspected-factories", n, 4)
